@@ -8,7 +8,7 @@
    changes, and the call succeeds whenever the annotation exists. *)
 From Stam Require Import Base.Tac Model.Offset Model.Store Model.StoreObs Spec.StoreSpec
      Proofs.StoreScan Proofs.StoreInv Proofs.StoreDataDef Proofs.StoreRemove Proofs.StoreRemove2
-     Proofs.StoreRemove3 Proofs.StoreData Proofs.StoreExact Proofs.StoreExactData.
+     Proofs.StoreRemove3 Proofs.StoreData Proofs.StoreExact Proofs.StoreExactData Proofs.StoreSets Proofs.StoreExactKey.
 
 Theorem C02_nothing_dangles : forall ops,
   let s := run ops in ann_refs_ok s /\ item_refs_ok s /\ data_ok s.
@@ -89,6 +89,24 @@ Proof.
   intros ops d x strict s. destruct (reachable_Good ops) as (HI & Hwf & _ & Hrf & _).
   destruct (remove_data_h_exact s d x strict HI Hwf Hrf) as (A & B). split; [exact A|].
   intros y a' Hy. destruct (B y a' Hy) as (a & Ha & He & _). exists a. tauto.
+Qed.
+
+(* remove_key, strict or not, of an existing key in ANY reachable store (built by operations that
+   give data items ids, not handles - op_ok): a previously live annotation is gone iff it is in the
+   closure the specification computes (strict: every annotation using a data item of the key;
+   non-strict: those all of whose data belongs to the key; both: those that target the key or one
+   of its data items; and everything that reaches one of them), and every survivor is what it was
+   minus the data items of the key *)
+Theorem C02_remove_key_exact : forall ops dr kr strict d ds k tok,
+  Forall op_ok ops ->
+  let s := run ops in
+  to_handle (sidx s) dr = Some d -> get_set s d = Some ds -> to_handle (d_kidx ds) kr = Some k ->
+  slot (d_keys ds) k = Some tok ->
+  let s' := fst (rm_key s dr kr strict) in
+  (forall y, get_ann s y <> None -> (get_ann s' y = None <-> In y (deps_key s ds d k strict)))
+  /\ (forall y a', get_ann s' y = Some a' -> exists a, get_ann s y = Some a /\ a' = stripk (s_key_data ds k) d a).
+Proof.
+  intros ops dr kr strict d ds k tok Hok s. apply (rm_key_exact s dr kr strict d ds k tok (reachable_Good ops) (reachable_SetsInv ops Hok)).
 Qed.
 
 (* the closure of the specification is reachability along "targets an annotation" edges *)
